@@ -60,6 +60,31 @@ claim("C14", "translation_validation",
   "Base shapes = corpus shapes whose own program discharges C05. Known-findings list in /verif/known_findings_c14.jsonl (validated: each listed pair fails to build).",
   "static analysis: translation validation over program pairs (text identity + go/types re-validation)", "DESIGN.md §4 TV-inert, §5 C14")
 
+claim("C01", "other",
+  "Necessary conditions of the round trip that are static choices shared by writer and reader, decided for all values: inverse codec operations and codec provenance (LA-codec); PLAIN layout per element type with bit-preserving conversions, string length prefix, bool bit order (LA-plain); presence/order/width agreement of level streams (LA-order); Add copies the record, shredders keep only primitives, assemblers never store a slice of reader buffers into a record (LA-alias) — decides the two 'unaffected by mutation' sentences. Per-shape inversion of shredding by assembly is claimed under C05. NOT decided: page-chain / row-group / cursor arithmetic, loop termination, multi-page bool unpacking, thrift, Rows()/Next() counts.",
+  "Thin on value-level behaviour by nature; the listed arithmetic needs execution against a model.",
+  "static analysis: sibling-agreement and data-flow checks on go/ssa (codec dispatch, PLAIN encoders/decoders, level stream call sites, alias check of assemblers)", "DESIGN.md §4 LA, §5 C01")
+claim("C02", "other",
+  "Necessary structural conditions of C02: per page, header sizes and chunk totals are exactly the lengths of the bytes written (linear-form evaluation over slice lengths through DoWrite..updateColumnChunk: no swap of compressed/uncompressed, header bytes included); PAR1 first / footer / LE footer length = bytes written / PAR1 last (LA-frame); schema inputs handed to the runtime match the struct for every shape of the corpus (TV-fields); footer row count from emitted groups, no bytes outside accounted row groups (WH). NOT decided: the schema tree built by schema() (same-named groups under different parents collide), offset sums, thrift, page record limits.",
+  "Value-level parts need execution against an independent parser.",
+  "static analysis: interprocedural linear-form (slice-length) evaluation on go/ssa, framing dominance checks, translation validation of Fields() over the shape corpus", "DESIGN.md §4 LA-len/LA-frame, §5 C02")
+claim("C04", "other",
+  "Necessary structural preconditions only (thin): decode-time choices come from the file, never from writer configuration (codec provenance; no reader-reachable load of a writer-configuration field); inverse codec pairing; both run kinds and multi-byte run headers handled by the level decoder; page body extent from the header's compressed size; level stream order/width agreement; fragmentation independence (SR). NOT decided: correctness of level/run/PLAIN decoding, page concatenation and trimming for all legal encodings (needs an independent writer).",
+  "C04 is a statement about decoding values for all legal encodings; only its structural preconditions are claimed.",
+  "static analysis: provenance/data-flow checks and sibling agreement on go/ssa; bit-provenance evaluation of run headers and varints", "DESIGN.md §5 C04")
+claim("C07", "other",
+  "Necessary structural conditions: run-kind flag agreement between encoder headers and decoder dispatch; LEB128 writer/reader structure (7 bits per byte, continuation bit, multi-byte headers) by bit-provenance evaluation on SSA; exact little-endian int32 length prefix agreement; level stream presence/order/width agreement at the page level; bit-packed payload layout (BP, the C17 proof obligations). NOT decided: the encoder state machine (8-repeat switch, 63-group close, back-patching, padding) and the decoder's acceptance of every run segmentation — they need a relational invariant over all value sequences, out of reach of this family here.",
+  "No numeric/relational abstract domain beyond constants and bit provenance is available.",
+  "static analysis: bit-provenance abstract interpretation over go/ssa + sibling-agreement checks", "DESIGN.md §4 LA-runkind/LA-prefix/BP, §5 C07")
+claim("C15", "other",
+  "Necessary condition only (thin): the physical-type table used to regenerate a struct from a footer is the inverse of the schema type functions of the generated writer on every type C15 covers, and OPTIONAL <-> pointer on both sides. The tree reconstruction from num_children and the footer it is fed are value-level and NOT decided.",
+  "Thin by nature.",
+  "static analysis: table-agreement check (go/ast constant table vs. SSA analysis of generated Type functions)", "DESIGN.md §4 LA-types, §5 C15")
+claim("C16", "other",
+  "Necessary structural conditions only (thin): every Read/Seek failure on the introspection paths is reported (EP); the page walk reads one header per iteration, appends it exactly once, skips exactly its compressed_page_size, advances by its num_values; PageHeaders visits every chunk of every row group in order with that chunk's own offset and count. Equality with an independent walk of arbitrary files is value-level and NOT decided.",
+  "Thin by nature.",
+  "static analysis: error-propagation check + data-flow/shape checks of the page walk on go/ssa", "DESIGN.md §4 LA-extent, §5 C16")
+
 NA_DEFAULT = "check not built yet (static-analysis framework under construction, see DESIGN.md §9)"
 NA = {}
 checks = []
